@@ -735,10 +735,7 @@ func (fx *fnExec) builtin(b *ssa.Builtin, cc *ssa.CallCommon, st *State, pos tok
 		case *types.Pointer:
 			return intVal(BVI(u.Elem().Underlying().(*types.Array).Len(), 64))
 		case *types.Map:
-			ex.Dropped["len(map) is unconstrained (non-negative)"] = true
-			n := Fresh("maplen", BV64)
-			ex.assume(st, BVSle(BVI(0, 64), n))
-			return intVal(n)
+			return intVal(ex.mapLen(st, u, x.C[0]))
 		case *types.Chan:
 			n := Fresh("chanlen", BV64)
 			ex.assume(st, BVSle(BVI(0, 64), n))
@@ -783,6 +780,7 @@ func (fx *fnExec) builtin(b *ssa.Builtin, cc *ssa.CallCommon, st *State, pos tok
 		hs := ArraySort(IntSort, ArraySort(ks, BoolSort))
 		h := st.heapGet(hk, hs)
 		st.heapSet(hk, Store(h, m.C[0], Store(Select(h, m.C[0]), key, False)))
+		ex.mapLenStep(st, mt, Select(h, m.C[0]), Store(Select(h, m.C[0]), key, False), key, false)
 		return Val{}
 	case "print", "println":
 		return Val{}
